@@ -252,7 +252,7 @@ func genScenarios(r *rand.Rand, quick bool, skip map[string]bool) []*Scenario {
 	}
 	mul := 3
 	if !quick {
-		mul = 14
+		mul = 40
 	}
 	// 1. honest peers, all chain pairs (fork point 0..8, local ahead of / equal to / behind the fork).
 	for i := 0; i < 27*mul; i++ {
@@ -282,7 +282,7 @@ func genScenarios(r *rand.Rand, quick bool, skip map[string]bool) []*Scenario {
 	// 3. SyncStop at every step index of an otherwise honest session.
 	nstop := 2
 	if !quick {
-		nstop = 10
+		nstop = 16
 	}
 	for k := 0; k < nstop; k++ {
 		proto := baseScenario(r, 0)
@@ -445,7 +445,7 @@ func genScenarios(r *rand.Rand, quick bool, skip map[string]bool) []*Scenario {
 	//     change fork exactly at a chunk boundary; forged first block of a chunk). Few cases each.
 	nsus := 2
 	if !quick {
-		nsus = 6
+		nsus = 8
 	}
 	for i := 0; i < nsus; i++ {
 		add("dup-hno", func(s *Scenario) {
